@@ -1,6 +1,7 @@
 package main
 
 import (
+	"os"
 	"archive/tar"
 	"bytes"
 	"compress/bzip2"
@@ -103,17 +104,8 @@ func init() {
 		}
 		return fmt.Sprintf("%s %s %s %s %s", showBool(istar), hx(ext), showBool(decok), showBool(untarok), showList(items))
 	}
-	// debload buf -> what Load exposes: control fields, extensions, member index, data tar listing
-	ops["debload"] = func(a []string) string {
-		buf := []byte(arg(a, 0))
-		d, err := deb.Load(bytes.NewReader(buf), "x.deb")
-		if err != nil {
-			if d != nil {
-				return "err-with-value"
-			}
-			return "err"
-		}
-		defer d.Close()
+	// what a loaded package exposes: control fields, extensions, member index, data tar listing
+	observe := func(d *deb.Deb, limit int) string {
 		names := []string{}
 		for n := range d.ArContent {
 			names = append(names, n)
@@ -137,11 +129,50 @@ func init() {
 				return "err"
 			}
 			files = append(files, "( "+hx(path.Clean(h.Name))+" "+showData(c)+" )")
-			if steps > len(buf) {
+			if steps > limit {
 				return "timeout"
 			}
 		}
 		return "ok " + showRecord(reflect.ValueOf(d.Control)) + " | " + hx(d.ControlExt) + " " + hx(d.DataExt) + " " + showList(idx) + " " + showList(files)
+	}
+	// debload buf -> Load on an in-memory reader
+	ops["debload"] = func(a []string) string {
+		buf := []byte(arg(a, 0))
+		d, err := deb.Load(bytes.NewReader(buf), "x.deb")
+		if err != nil {
+			if d != nil {
+				return "err-with-value"
+			}
+			return "err"
+		}
+		defer d.Close()
+		return observe(d, len(buf))
+	}
+	// debloadfile buf -> the same package through LoadFile (a real file under /var/tmp, closed by the returned closer)
+	ops["debloadfile"] = func(a []string) string {
+		buf := []byte(arg(a, 0))
+		f, err := ioutil.TempFile("/var/tmp", "verif-deb-*.deb")
+		if err != nil {
+			return "harness-error"
+		}
+		name := f.Name()
+		defer os.Remove(name)
+		f.Write(buf)
+		f.Close()
+		d, closer, err := deb.LoadFile(name)
+		if err != nil {
+			if d != nil {
+				return "err-with-value"
+			}
+			return "err"
+		}
+		res := observe(d, len(buf))
+		if closer != nil {
+			if err := closer(); err != nil {
+				return res + " close-error"
+			}
+		}
+		return res
 	}
 	// sigoracle keyring signeddata sig -> signer id or "-"
 	ops["sigoracle"] = func(a []string) string {
